@@ -50,7 +50,7 @@ impl Property for C05 {
         ]
     }
     fn cases(&self, tier: Tier) -> u32 {
-        tier.pick(120_000, 6_000_000)
+        tier.pick(250_000, 10_000_000)
     }
     fn strategy(&self, tier: Tier) -> BoxedStrategy<FmtCase> {
         fmt_input::case(tier)
@@ -72,19 +72,21 @@ impl Property for C05 {
             Err(p) => return Verdict::fail(format!("panic:{}", site(&p)), format!("formatter panicked: {p}; cfg: {}", fmt_config::describe(&c.cfg))),
         };
         // determinism: the workspace API calls the same function, so a difference means the output is not a function of
-        // (input, config).  Known cause: overlapping doc alignment groups iterated in HashMap order (two tags on one
-        // line); such inputs get more probes, and their comment-level failures are filed under that family.
+        // (input, config).  Known cause: overlapping doc alignment groups applied in HashMap order (a block with `---|`
+        // continuation lines or with two tags on one line); such inputs get six more probes.
         let ft = format_text(&c.text, util::level(c.level), &c.cfg);
         let mut stable = ft.formatted == out;
-        if a.multi_tag_lines > 0 {
-            obs.class("two-doc-tags-on-one-line");
+        if a.risky_doc_blocks > 0 {
+            obs.class("doc-block-with-continuation-or-two-tags");
             for _ in 0..6 {
                 stable = stable && run_formatter(&c.text, c.level, &c.cfg).map(|o| o == out).unwrap_or(false);
             }
         }
         if !stable {
-            let sig = if a.multi_tag_lines > 0 { "nondeterministic-output(two-doc-tags-on-one-line)" } else { "nondeterministic-output" };
-            return Verdict::fail(sig, format!("formatting the same input with the same configuration twice gives different outputs; input: {:?}", one_line(&c.text, 300)));
+            return Verdict::fail(
+                "nondeterministic-output",
+                format!("formatting the same input with the same configuration twice gives different outputs; cfg: {}; input: {:?}", fmt_config::describe(&c.cfg), one_line(&c.text, 300)),
+            );
         }
         if ft.changed != (out != c.text) {
             return Verdict::fail("format_text-changed-flag-wrong", "format_text(...).changed disagrees with formatted != input");
@@ -130,6 +132,22 @@ impl Property for C05 {
         }
         Verdict::pass(!a.comments.is_empty() && a.n_stats >= 5 && out != c.text)
     }
+}
+
+/// Signatures of the open C05 findings (KNOWN_FINDINGS.json, read once).  C06 and C07 see the same formatter-output
+/// defects through a second pass / through a fragment; such cases are counted as excluded there instead of being
+/// listed a second and third time.
+pub fn open_c05_signatures() -> &'static Vec<String> {
+    static S: std::sync::OnceLock<Vec<String>> = std::sync::OnceLock::new();
+    S.get_or_init(|| {
+        let root = std::env::var("VERIF_ROOT").unwrap_or_else(|_| "/verif".to_string());
+        let text = std::fs::read_to_string(std::path::Path::new(&root).join("KNOWN_FINDINGS.json")).unwrap_or_default();
+        let v: serde_json::Value = serde_json::from_str(&text).unwrap_or_default();
+        v["findings"]
+            .as_array()
+            .map(|a| a.iter().filter(|f| f["property"] == "C05" && f["status"] == "open").filter_map(|f| f["signature"].as_str().map(|s| s.to_string())).collect())
+            .unwrap_or_default()
+    })
 }
 
 /// panic location relative to the repository root (stable across checkouts), for signatures
